@@ -9,7 +9,7 @@ CONSTANTS MaxN, Slab
 VARIABLES c,      \* <<p, n, z>>
           d       \* derived (a function of c, kept in the state so that it is computed once)
 vars == <<c, d>>
-InDomain(p, n, z) == p + n + z <= MaxN \/ (Slab /\ z \in 15..19 /\ p <= 2 /\ n <= 2)
+InDomain(p, n, z) == p + n + z <= MaxN \/ (Slab /\ z \in 15..19 /\ ((p <= 2 /\ n <= 8) \/ (n <= 2 /\ p <= 8)))
 Derive(pp, nn, zz) ==
   LET fam == Family(pp, nn, zz)
       nums == [a \in fam |-> DeltaNum(a)]
@@ -17,9 +17,14 @@ Derive(pp, nn, zz) ==
   IN [mn |-> m, arg |-> CHOOSE a \in fam : nums[a] = m, alt |-> DeltaMaxNumAlt(pp, nn, zz),
       mirror |-> \A a \in fam : DeltaNum(Rev(a)) = nums[a] /\ DeltaNum(Inv(a)) = nums[a],
       sym |-> DeltaMaxNum(nn, pp, zz)]
-Init == c = <<0, 0, 0>> /\ d = Derive(0, 0, 0)
+\* the slab is not connected to the small compositions by single increments: it has its own root
+Init == \/ c = <<0, 0, 0>> /\ d = Derive(0, 0, 0)
+        \/ Slab /\ c = <<0, 0, 15>> /\ d = Derive(0, 0, 15)
+\* canonical generation (first p, then n, then z from the root's z) so that every composition is derived exactly once
+RootZ == IF c[3] >= 15 /\ c[1] + c[2] + c[3] > MaxN THEN 15 ELSE 0
+MayStep(k) == CASE k = 1 -> c[2] = 0 /\ c[3] = RootZ [] k = 2 -> c[3] = RootZ [] k = 3 -> TRUE
 Next == \E k \in 1..3 : LET e == [c EXCEPT ![k] = @ + 1] IN
-          InDomain(e[1], e[2], e[3]) /\ c' = e /\ d' = Derive(e[1], e[2], e[3])
+          MayStep(k) /\ InDomain(e[1], e[2], e[3]) /\ c' = e /\ d' = Derive(e[1], e[2], e[3])
 Spec == Init /\ [][Next]_vars
 p == c[1]
 n == c[2]
